@@ -465,6 +465,9 @@ func cliCalc(c *cliEnv, r *rand.Rand, cw *CalcWriter, prop, label string, maxT i
 			cw.emit(ev)
 		}
 	case "C14":
+		if r.Intn(3) == 0 {
+			gp.PNegLen = 0.15
+		}
 		if r.Intn(4) == 0 {
 			// matrix --avg over a collection on the same taxa
 			nt := 4 + r.Intn(maxi(1, maxT-4))
